@@ -115,6 +115,11 @@ func (e *Engine) verifyFunc(ct *Contract) (res *FuncVC) {
 		g := c.specBool(penv, cl.Expr)
 		c.oblige("ensures", fmt.Sprintf("ensures#%d", cl.Idx), rst.reach, g, c.pos(fn.Pos())).Desc = cl.Text
 	}
+	for _, cl := range ct.Clauses {
+		if cl.InScope && cl.Attached == 0 {
+			c.leave("call-site assertion never in scope: " + cl.Text)
+		}
+	}
 	// ghost postconditions are ordinary ensures using ghost(name)
 	c.frameObligations(fr, ct, rst, penv)
 	c.exitObligations(fr, ct, rst, penv)
